@@ -1,5 +1,5 @@
 """Texts for MANIFEST.json."""
-SOURCE_COMMITS = []
+SOURCE_COMMITS = []  # no hook commits: the overlay is a copy; "fix:" commits are listed in known_findings.json
 NOTES = ("All checks are bounded model checking with Kani/CBMC of the real fastrace source compiled in a scratch overlay "
          "regenerated from /repo's working tree on every run; exit 2 = inconclusive (never a pass, never a violation).")
 
@@ -8,10 +8,25 @@ NOT_APPLICABLE = {
     "C03": "entirely about which report() call records arrive in across collector cycles; handle_commands is beyond the bounded model checker's reach (DESIGN.md §1, §6)",
     "C08": "collector state after cycles (HashMap-based handle_commands): beyond the bounded model checker's reach (DESIGN.md §1, §6)",
 }
-for _p in ["C01", "C04", "C05", "C06", "C07", "C09", "C10", "C11", "C12", "C13", "C14", "C15", "C16", "C17", "C18", "C19", "C20"]:
+for _p in ["C05", "C06", "C07", "C10", "C11", "C12", "C13", "C14", "C15", "C16", "C17", "C18", "C19", "C20"]:
     NOT_APPLICABLE[_p] = _PENDING
 
+_QNOTE = ("Decides only the queue link (util/spsc.rs) and, where listed, the sender link (which commands an API call pushes). "
+          "NOT decided: anything the collector does with a received command (handle_commands, reporting, timing, flush()). "
+          "Interleaving granularity: whole try_recv calls between producer pushes, and arbitrary ring-level producer behaviour between the two ring "
+          "accesses of try_recv; the ring itself (rtrb) is a trusted linearizable model; histories longer than one operation follow by an induction argument on paper.")
 CLAIMS = {
+    "C01": dict(
+        text="Bounded model checking of the real Sender/Receiver code at T=u8: from every valid channel state one send / force_send / thread exit / try_recv "
+             "neither loses, duplicates nor reorders an accepted command, also when the producer pushes and exits between try_recv's pop and is_abandoned.",
+        note=_QNOTE),
+    "C04": dict(
+        text="Bounded model checking: force-sent DropCollect/CommitCollect stay in order and are never dropped on a full ring (one-step induction on the queue), "
+             "also across thread exit; cancel() pushes DropCollect only for roots (sender link).",
+        note=_QNOTE),
+    "C09": dict(
+        text="Bounded model checking: a send on a full ring drops only itself; force-sent signals are neither dropped nor reordered; local span limits skip only the excess spans.",
+        note=_QNOTE),
     "C02": dict(
         text="For every generator state the next two span ids are prefix<<32|counter+1,+2 (distinct, non-zero unless prefix=0 and the counter wraps); "
              "parent linking at recording time decided on SpanQueue/SpanLine/issue_collect_token for all id values within small shapes.",
